@@ -30,4 +30,5 @@ VARIANTS = [
       "total = functools.reduce(operator.add, map(abs, map(float, self.subshapes)), 0)\n    return float(total)", ["R19.1b", "R19.1"]),
     M("disjoint-area-by-reduce-skips-first", "shape.DisjointShape.__float__", "total = 0\n    for subshape in self.subshapes:\n        total += float(subshape)\n    return float(total)",
       "total = functools.reduce(operator.add, map(float, self.subshapes[1:]), 0)\n    return float(total)", ["R19.1b", "R19.1"]),
+    M("connected-point-box-reject", "shape.ConnectedShape._contains_point", "for subshape in self.subshapes:", "if point not in self.box():\n        return False\n    for subshape in self.subshapes:", ["R19.1c", "R19.1"]),
 ]
